@@ -479,12 +479,16 @@ class Tensor:
         r = self._binop(o, lambda x, y: x / y)
         if r is not NotImplemented and r.dtype.cat < 2:
             r.dtype = _default_dtype
+            if _default_dtype.bits == 32:
+                r.a = _narrow32(r.a)          # integer / integer is computed in the default (single) precision
         return r
 
     def __rtruediv__(self, o):
         r = self._binop(o, lambda x, y: x / y, True)
         if r is not NotImplemented and r.dtype.cat < 2:
             r.dtype = _default_dtype
+            if _default_dtype.bits == 32:
+                r.a = _narrow32(r.a)          # number / integer tensor is computed in the default (single) precision
         return r
 
     def __pow__(self, n):
@@ -672,6 +676,9 @@ class Tensor:
     def abs(self):
         return abs(self)
 
+    def __abs__(self):
+        return abs(self)
+
     def sqrt(self):
         return sqrt(self)
 
@@ -753,6 +760,12 @@ def _mk(a, dt, parents=(), view=False):
         if autograd.ENABLED and _py_any(_isinstance(p, Tensor) and (p.requires_grad or p.grad_fn is not None) for p in parents):
             # computed under no_grad from tracked operands: same values, but no longer a function of the leaves for differentiation
             a = autograd.cut_array(a)
+    if not view and dt.cat >= 2 and (dt.bits // (2 if dt.is_complex else 1)) == 32:
+        # results of 32-bit arithmetic on concrete values are rounded like torch does (symbolic entries stay exact)
+        if not (_isinstance(a, _np.ndarray) and a.dtype == object):
+            a = _objarr(a)
+        if a.size <= 4096:
+            a = _narrow32(a)
     t = Tensor(a, dt)
     if _GRAD_MODE[0]:
         for p in parents:
@@ -2021,16 +2034,60 @@ def _deep(obj):
     return obj
 
 
+_MAPPED = set()          # paths of which some loaded object is a memory map
+
+
+def _flat_tensors(obj, out):
+    if _isinstance(obj, Tensor):
+        out.append(obj)
+    elif _isinstance(obj, dict):
+        for v in obj.values():
+            _flat_tensors(v, out)
+    elif _isinstance(obj, (list, tuple)):
+        for v in obj:
+            _flat_tensors(v, out)
+    return out
+
+
+def _alias(obj):
+    # memory-mapped load: the tensors are windows on the stored bytes
+    if _isinstance(obj, Tensor):
+        t = Tensor(obj.a, obj.dtype)
+        t._conjbit = obj._conjbit
+        return t
+    if _isinstance(obj, dict):
+        return {k: _alias(v) for k, v in obj.items()}
+    if _isinstance(obj, list):
+        return [_alias(v) for v in obj]
+    if _isinstance(obj, tuple):
+        return tuple(_alias(v) for v in obj)
+    return obj
+
+
 def save(obj, path):
-    _STORE[str(path)] = _deep(obj)
+    new = _deep(obj)
+    key = str(path)
+    if key in _MAPPED and key in _STORE:
+        # the file is rewritten while maps of it are alive: the bytes under the maps change.  Modelled for files of the same layout
+        # (same tensors in the same order); anything else is outside the model
+        old_t, new_t = _flat_tensors(_STORE[key], []), _flat_tensors(new, [])
+        if len(old_t) != len(new_t) or _py_any(a.a.shape != b.a.shape or a.dtype is not b.dtype for a, b in zip(old_t, new_t)):
+            unsupported('a memory-mapped file is overwritten with another layout')
+        for a, b in zip(old_t, new_t):
+            a.a[...] = b.a
+        return
+    _STORE[key] = new
 
 
-def load(path, map_location=None, weights_only=True):
+def load(path, map_location=None, weights_only=True, mmap=None):
     if str(path) not in _STORE:
         raise FileNotFoundError(path)
     obj = _STORE[str(path)]
     if weights_only:
         _scan_weights_only(obj)
+    if mmap:
+        _MAPPED.add(str(path))
+        return _alias(obj)
     return _deep(obj)
 
 
@@ -2184,6 +2241,29 @@ class _NoGrad:
 
 def no_grad():
     return _NoGrad()
+
+
+def is_grad_enabled():
+    return _GRAD_MODE[0]
+
+
+class set_grad_enabled:
+    """torch.set_grad_enabled: takes effect at once (function form) and restores the previous mode on exit (context-manager form)"""
+
+    def __init__(self, mode):
+        self.prev = _GRAD_MODE[0]
+        _GRAD_MODE[0] = True if mode else False
+
+    def __enter__(self):
+        return self
+
+    def __exit__(self, *a):
+        _GRAD_MODE[0] = self.prev
+        return False
+
+
+def enable_grad():
+    return set_grad_enabled(True)
 
 
 # opt_einsum stand-in
